@@ -110,6 +110,15 @@ func init() {
 		return it.C.BVI(int64(v), 64)
 	})
 	R(VS+"RegisterHarness", func(it *Interp, _ *ssa.Function, a []Value) Value { return nil })
+	R(VS+"DrbgStream", func(it *Interp, _ *ssa.Function, a []Value) Value {
+		var vals []*smt.Term
+		for _, e := range sliceElems(a[0].(SliceV)) {
+			vals = append(vals, e.(*smt.Term))
+		}
+		it.M.extra["drbg.stream"] = vals
+		it.M.extra["drbg.pos"] = 0
+		return nil
+	})
 	R(VS+"Symbolic", func(it *Interp, _ *ssa.Function, a []Value) Value { return it.C.True })
 	R(VS+"AllowGoroutines", func(it *Interp, _ *ssa.Function, a []Value) Value {
 		it.M.allowGo = true
